@@ -449,7 +449,7 @@ pub fn run_hx_plus_family(prop: &'static str, tier: &str) -> Outcome {
     let t0 = Instant::now();
     let mut o = run_hx_prop(prop, tier);
     let (acc, what) = match prop {
-        "C05" => (crate::gen::families::run_c05_family(tier), "allocator families: stores of capacity 1, 2, 9, 10, 12, 17, 33, 64, 300, 1024 with 0-2 ids handed out first and a run of 0..39 explicitly added vertices right above the position, then up to 6 next_id()/add(next_id()) calls, each judged by the model that keeps the set of returned ids; plus 6 scripts with variables (succeeding and failing at different commands) x 2 capacities: the ids their variables got must not come again after the vertices are collected"),
+        "C05" => (crate::gen::families::run_c05_family(tier), "allocator families: stores of capacity 1, 2, 9, 10, 12, 17, 33, 64, 300, 1024 with 0-2 ids handed out first and a run of 0..39 explicitly added vertices right above the position, then up to 6 next_id()/add(next_id()) calls, each judged by the model that keeps the set of returned ids; plus 6 scripts with variables (succeeding and failing at different commands) x 2 capacities: the ids their variables got must not come again after the vertices are collected; plus merges of graphs that are not trees (every right graph of 2 or 3 vertices over 3 labels - quick: vertex 2 has no outgoing edges - onto 452 left shapes: 0..3 kids created by add(next_id()) or add(position+1/+2), every injective labelling, optional grandchild), then 3 next_id() calls with and without add: each id must be below the capacity, absent, and not handed out or created before (judged on the real graph alone, no model of the fold)"),
         "C08" => (crate::gen::families::run_swap_family("C08", Op::ReloadSwap), "k = 1..=14 groups alive (the 14th uses the last usable slot) with unread, read and ungrouped data, then save+load (once or three times in a row), then everything is read in either order; oracle: the reference model in lock-step after every call"),
         "C10" => (crate::gen::families::run_swap_family("C10", Op::CloneSwap), "k = 1..=14 groups alive (the 14th uses the last usable slot) with unread, read and ungrouped data, then clone() (once or three times in a row), then everything is read in either order; oracle: the reference model in lock-step after every call"),
         "C02" => (crate::gen::families::run_c02_family(tier), "14 groups alive at once formed through either bind arm with put before/after the bind and drained in both orders; and every way to grow one group to exactly 16 members (each of the 14 joins through either bind arm: 2^14 patterns) next to a bystander group and an ungrouped vertex, data on one or two members (position derived from the pattern), put before or after the join, overwriting put, both read orders; oracle: the reference model in lock-step after every call"),
